@@ -22,6 +22,7 @@ let () = Drv_srv.install register get getn geti getb
 let () = Drv_xfer.install register get getn geti getb
 let () = Drv_req.install register get getn geti getb
 let () = Drv_req.install_listing register get geti getb
+let () = Drv_req.install_lin register get
 
 let () =
   (try while true do
